@@ -20,6 +20,9 @@ WEIRD = ["'ééé'", "'😀😀'", "''", "'ab", '"open', "`", "$", "@", "@bogus"
 # degenerate but well-formed fragments: must be diagnosed or assembled, never crashed on
 FAULTS = [
     "@defn sr1, sr1\n@db sr1", "@defn ma, mb\n@defn mb, ma\n@db ma", "@defl la, la + 1\n@dw la", "@defn c1, c2 + 1\n@defn c2, c3 + 1\n@defn c3, c1 + 1\n@dw c2",
+    '@db @string { "<" b ld a x nop hl LD A, B ">" }', "@label { lb b ld }:\n@dw lbbld", '@parse { @db "<"b@sizeof x } ', "@db @string { af' ix IXH sp (c) }",
+    "@defn k1, k1\n@defn k2, k1 + 1\n@db k2", "@defn r1, r2\n@defn r2, r1\n@defn r3, r2 + 1\n@defn r4, r3 * 2\n@dw r4", "@defl la1, la1\n@defl lb1, la1\n@defl lc1, lb1\n@db lc1, lb1",
+    "@dw t3\n@defn t3, t2 + t1\n@defn t2, t1\n@defn t1, t2", "@assert u2\n@defn u2, u1 - 1\n@defn u1, u1 + 1",
     "@db 1/0", "@db 1 % 0", "@dw 5 / (3 - 3)", "@dw 5 % (3 - 3)", "@db -($80000000)", "@dw (-($80000000)) & 1", "@dw ($80000000 / -1) & 1", "@dw ($80000000 % -1) & 1",
     "@dw (1 << 40) & 1", "@dw (1 >> -1) & 1", "@dw (1 <<< 33) & 1", "@dw (1 >>> 99) & 1", "@dw ($7fffffff + 1) & 1", "@dw ($80000000 - 1) & 1", "@dw ($7fffffff * $7fffffff) & 1",
     "@dw fz / fz2\n@defn fz, 1\n@defn fz2, 0", "@dw -fm\n@defn fm, $80000000", "@assert 1 / 0", "@if 1 / 0\n@endif", "@ds 1 / 0", "@org 1 / 0", "@align 1 / 0",
@@ -320,7 +323,7 @@ def run(ck):
             opts = "g=/w/out.json" + (";gx=/w/out.sym" if arch == "sm83" else ";gx=/w/rom.nes" if arch == "6502" else "")
         return asm_case(arch, files=files, opts=opts)
     ic = [icase(a, d) for a, d, _ in cases]
-    res = [AsmResult(r) for r in run_cases(harness, ic, timeout=240, mem_mb=2048)]
+    res = [AsmResult(r) for r in run_cases(harness, ic, mem_mb=2048, case_timeout=20)]
     ck.evaluations += len(cases)
     nviol = 0
     suspects = []
@@ -343,7 +346,7 @@ def run(ck):
     # a timeout / abort where the model runs out of fuel is unbounded expansion: outside the quantifier
     if suspects:
         kc = [{"arch": a, "files": dict(EXTRA, **{"/w/main.asm": d})} for a, d, _, _, _, _ in suspects[:40]]
-        _, mres, _ = asmk.run_full(harness, model, kc)
+        _, mres, _ = asmk.run_full(harness, model, kc, case_timeout=20)
         for (arch, data, tag, a, c, bad), m in zip(suspects[:40], mres):
             if a.kind == "ABORT" and "timeout" in a.raw and m == "FUEL":
                 ck.count("excluded:unbounded-expansion")
@@ -361,7 +364,7 @@ def run(ck):
     for i in sel:
         arch, data, _ = cases[i]
         kc.append({"arch": arch, "files": dict(EXTRA, **{"/w/main.asm": data})})
-    impl2, mod2, ic2 = asmk.run_full(harness, model, kc)
+    impl2, mod2, ic2 = asmk.run_full(harness, model, kc, case_timeout=20)
     ck.evaluations += len(kc)
     asmk.k_check_full(ck, kc, impl2, mod2, ic2)
     mcrash = sum(1 for m in mod2 if m.startswith("PANIC"))
